@@ -2,7 +2,14 @@
 
 P: theorems of coq/theories/Props/C08.v over StateTree/Model.v (all layouts, unbounded).
 C: extracted model vs the real state-tree crate on exhaustive small pairs + random edit-script pairs.
-S: the six clauses of the property evaluated directly on the implementation's plans.
+S: the clauses of the property evaluated directly on the implementation's plans.  Survivors clause:
+   * pure removals / pure insertions (C08_survivors, C08_survivors_whole): coverage and identity form, as before;
+   * MIXED edits (subtrees removed AND added in one edit, also nested): the COUNT form always (the plan carries at least as many cells
+     as survive the best reading of the pair as a mixed edit, C08_survivors_mixed_count), the IDENTITY form (every untouched child with
+     cells is copied whole from/to an identical child, C08_survivors_mixed_unambiguous) on UNAMBIGUOUS scripts — predicate
+     `mixed_edit_fresh` / `mixed_edit_ambiguous` below, a python transcription of StateTree/Unamb.v new_fresh / old_fresh — at the root
+     and at every pair of call nodes the plan pairs.  For generated edits the script is known; an identity failure on an AMBIGUOUS
+     generated script is the recorded finding F29 (class mixed-edit-ambiguous-partial-chain), on an unambiguous one a violation.
 """
 import json, os, sys
 from vplib import *
@@ -126,6 +133,103 @@ def delete_subtrees(rng, s, root=True):
     return ('C', kids)
 
 
+def rand_leaf(rng, pos=False):
+    k = rng.choice("DMME")
+    if k == 'D':
+        return (k, rng.choice([0, 1, 2, 4, 7]))
+    return (k, rng.choice([1, 1, 2, 3, 5] if pos else [0, 1, 1, 2, 3, 5]))
+
+
+SITE_ALPHABET = [('E', 1), ('M', 1), ('M', 1), ('M', 2), ('D', 1), ('D', 3), ('E', 2)]
+FRESH_ALPHABET = [('E', 7), ('M', 9), ('D', 11), ('M', 13), ('E', 5)]
+
+
+def rand_site(rng, alphabet=SITE_ALPHABET):
+    """a call site the way C07's voices look: a flat call node with a few cells drawn from a small alphabet, so that
+    different sites share cells (partial matches between siblings are the rule, not the exception)"""
+    return ('C', [rng.choice(alphabet) for _ in range(rng.range(1, 5))])
+
+
+def rand_pos_skel(rng, depth, maxkids=4):
+    """like rand_skel but every leaf has at least one word (the cell-count oracle needs cells to be visible in the storage)"""
+    r = rng.below(10)
+    if depth <= 0 or r < 3:
+        return rand_leaf(rng, True)
+    if r < 6:
+        return rand_site(rng)
+    return ('C', [rand_pos_skel(rng, depth - 1, maxkids) for _ in range(rng.range(1, maxkids + 1))])
+
+
+def mixed_edit(rng, s, depth=0, fresh=False):
+    """ONE edit that removes some subtrees AND adds others, at any depth: every child of a call node is kept, removed or
+    edited inside; new subtrees are added at random positions.  Returns (new layout, script) where script is the list of
+    steps over the children of s: ('same', c) | ('del', o) | ('ins', n) | ('edit', o, n).  With fresh=True the added
+    subtrees are built from cells that occur nowhere else (unambiguous edits)."""
+    assert s[0] == 'C'
+    script = []
+    for c in s[1]:
+        r = rng.below(8)
+        if r == 0:
+            script.append(('del', c))
+        elif r == 1 and c[0] == 'C' and depth < 3:
+            n, _ = mixed_edit(rng, c, depth + 1, fresh)
+            script.append(('same', c) if sk_eq(n, c) else ('edit', c, n))
+        else:
+            script.append(('same', c))
+    for _ in range(rng.choice([0, 1, 1, 1, 2])):
+        if fresh:
+            new = rand_site(rng, FRESH_ALPHABET)
+        else:
+            new = rand_site(rng) if rng.chance(2, 3) else rand_pos_skel(rng, 2)
+        script.insert(rng.below(len(script) + 1), ('ins', new))
+    return ('C', script_news(script)), script
+
+
+def script_olds(script):
+    return [st[1] for st in script if st[0] in ('same', 'del', 'edit')]
+
+
+def script_news(script):
+    return [st[1] if st[0] != 'edit' else st[2] for st in script if st[0] in ('same', 'ins', 'edit')]
+
+
+def script_pairs(script):
+    """(untouched_pairs, changed_pairs) of a script as index pairs (old index, new index)"""
+    i = j = 0
+    unt, chg = [], []
+    for st in script:
+        if st[0] == 'same':
+            unt.append((i, j)); i += 1; j += 1
+        elif st[0] == 'edit':
+            chg.append((i, j)); i += 1; j += 1
+        elif st[0] == 'del':
+            i += 1
+        else:
+            j += 1
+    return unt, chg
+
+
+def delins_script(rng, fresh=False):
+    """the C07 "delins" shape: a row of call sites with pairwise different shapes; one is removed and another one is added at a
+    different position"""
+    n = rng.range(2, 6)
+    sites = []
+    while len(sites) < n:
+        c = rand_site(rng)
+        if not any(sk_eq(c, x) for x in sites):
+            sites.append(c)
+    script = [('same', c) for c in sites]
+    for _ in range(rng.choice([1, 1, 2])):
+        keep = [k for k, st in enumerate(script) if st[0] == 'same']
+        if len(keep) > 1:
+            k = rng.choice(keep)
+            script[k] = ('del', script[k][1])
+        c = rand_site(rng, FRESH_ALPHABET if fresh else SITE_ALPHABET)
+        if not any(sk_eq(c, x) for x in sites):
+            script.insert(rng.below(len(script) + 1), ('ins', c))
+    return script
+
+
 # ---- predicates of the property evaluated on an implementation answer ----
 def sk_eq(a, b):
     if a[0] != b[0]:
@@ -195,17 +299,162 @@ def has_cells(s):
     return any(has_cells(c) for c in s[1]) if s[0] == 'C' else True
 
 
-def check_clauses(old, new, ans):
+def cells(s):
+    return sum(cells(c) for c in s[1]) if s[0] == 'C' else 1
+
+
+def key(s):
+    return show(s)
+
+
+def all_leaves_positive(s):
+    return all(all_leaves_positive(c) for c in s[1]) if s[0] == 'C' else size(s) > 0
+
+
+def share(a, b):
+    """StateTree/Indep.v share: a and b have an identical sub-layout WITH cells at equal depth (only then can the migration carry
+    anything from a to b)"""
+    if sk_eq(a, b) and cells(a) > 0:
+        return True
+    if a[0] == 'C' and b[0] == 'C':
+        return any(share(x, y) for x in a[1] for y in b[1])
+    return False
+
+
+def mixed_edit_fresh(old_children, new_children, untouched_pairs, changed_pairs=()):
+    """The hypotheses of Props/C08.v C08_survivors_mixed_unambiguous (StateTree/Unamb.v new_fresh, old_fresh) for ONE pair of call
+    nodes whose children are old_children / new_children (python skeletons ('D',n) | ('M',n) | ('E',n) | ('C',[children])):
+      untouched_pairs : [(i, j)] old child i is the untouched new child j (same shape, same relative order)
+      changed_pairs   : [(i, j)] old child i was changed in place into new child j (edited inside, or replaced)
+      every other old child was removed, every other new child was added.
+    Returns (new_fresh, old_fresh):
+      new_fresh : every added new child shares no cell with any old child; every changed new child differs from its counterpart and
+                  shares no cell with any old child of another shape than its counterpart.  Then every untouched NEW child with cells
+                  is copied whole from an identical old child.
+      old_fresh : symmetrically for removed / changed old children against the new children.  Then every untouched OLD child with
+                  cells is copied whole to an identical new child."""
+    unt_o = {i for i, _ in untouched_pairs}
+    unt_n = {j for _, j in untouched_pairs}
+    cp_n = {j: i for i, j in changed_pairs}
+    cp_o = {i: j for i, j in changed_pairs}
+    new_fresh = True
+    for j, n in enumerate(new_children):
+        if j in unt_n:
+            continue
+        o = old_children[cp_n[j]] if j in cp_n else None
+        if o is not None and sk_eq(o, n):
+            new_fresh = False
+        for a in old_children:
+            if (o is None or not sk_eq(a, o)) and share(a, n):
+                new_fresh = False
+    old_fresh = True
+    for i, o in enumerate(old_children):
+        if i in unt_o:
+            continue
+        n = new_children[cp_o[i]] if i in cp_o else None
+        if n is not None and sk_eq(o, n):
+            old_fresh = False
+        for b in new_children:
+            if (n is None or not sk_eq(b, n)) and share(o, b):
+                old_fresh = False
+    return new_fresh, old_fresh
+
+
+def mixed_edit_ambiguous(old_children, new_children, untouched_pairs, changed_pairs=()):
+    """True when the hypothesis under which every untouched NEW child keeps the state of an identical old child (with pairwise different
+    shapes: its own state) is NOT met, i.e. some added or changed new child shares a cell with an old child other than its counterpart:
+    class predicate of finding F29 (mixed-edit-ambiguous-partial-chain)."""
+    return not mixed_edit_fresh(old_children, new_children, untouched_pairs, changed_pairs)[0]
+
+
+def flat_site(has_self, n_mem, delay_n):
+    """skeleton of a call site with one feed cell (self), n_mem one-word mem cells and a delay of delay_n samples (0: none), the shape of
+    checks/C07.py's voice templates; for `share` only the kinds and sizes of the cells matter, not their order"""
+    return ('C', ([('E', 1)] if has_self else []) + [('M', 1)] * n_mem + ([('D', delay_n)] if delay_n else []))
+
+
+def canonical_script(ocs, ncs):
+    """a reading of two rows of children as a script, for pairs that come without one: the untouched children are a maximal
+    common subsequence (by shape); between two consecutive untouched children exactly one old and one new child left over are
+    read as changed in place; everything else is removed / added.  Returns (untouched_pairs, changed_pairs)."""
+    n, m = len(ocs), len(ncs)
+    L = [[0] * (m + 1) for _ in range(n + 1)]
+    for i in range(n - 1, -1, -1):
+        for j in range(m - 1, -1, -1):
+            L[i][j] = max(L[i + 1][j], L[i][j + 1], (L[i + 1][j + 1] + 1) if sk_eq(ocs[i], ncs[j]) else 0)
+    unt, i, j = [], 0, 0
+    while i < n and j < m:
+        if sk_eq(ocs[i], ncs[j]) and L[i][j] == L[i + 1][j + 1] + 1:
+            unt.append((i, j)); i += 1; j += 1
+        elif L[i + 1][j] >= L[i][j + 1]:
+            i += 1
+        else:
+            j += 1
+    chg = []
+    bounds = [(-1, -1)] + unt + [(n, m)]
+    for (i0, j0), (i1, j1) in zip(bounds, bounds[1:]):
+        if i1 - i0 == 2 and j1 - j0 == 2 and not sk_eq(ocs[i0 + 1], ncs[j0 + 1]):
+            chg.append((i0 + 1, j0 + 1))
+    return unt, chg
+
+
+def best_medit(o, n, memo):
+    """max number of surviving cells over all readings of (old, new) as a mixed edit (StateTree/Script.v medit)"""
+    kk = (key(o), key(n))
+    if kk in memo:
+        return memo[kk]
+    if sk_eq(o, n):
+        r = cells(o)
+    elif o[0] == 'C' and n[0] == 'C':
+        ocs, ncs = o[1], n[1]
+        a, b = len(ocs), len(ncs)
+        dp = [[0] * (b + 1) for _ in range(a + 1)]
+        for i in range(a - 1, -1, -1):
+            for j in range(b - 1, -1, -1):
+                dp[i][j] = max(dp[i + 1][j], dp[i][j + 1], dp[i + 1][j + 1] + best_medit(ocs[i], ncs[j], memo))
+        r = dp[0][0]
+    else:
+        r = 0
+    memo[kk] = r
+    return r
+
+
+def identity_fails(o, n, ob, nb, unt, chg, pset):
+    """the two clauses of C08_survivors_mixed_unambiguous for the children of the call nodes o (laid out from ob) and n (from nb) under
+    the script (unt, chg); returns (clause for new children fails, clause for old children fails, new_fresh, old_fresh)"""
+    nf, of = mixed_edit_fresh(o[1], n[1], unt, chg)
+    oo, no = [], []
+    acc = ob
+    for c in o[1]:
+        oo.append(acc); acc += size(c)
+    acc = nb
+    for c in n[1]:
+        no.append(acc); acc += size(c)
+    fail_new = fail_old = False
+    for (i0, j) in unt:
+        c = n[1][j]
+        if has_cells(c) and size(c) > 0 and \
+                not any(sk_eq(c, oc) and (oo[i], no[j], size(c)) in pset for i, oc in enumerate(o[1])):
+            fail_new = True
+    for (i, j0) in unt:
+        c = o[1][i]
+        if has_cells(c) and size(c) > 0 and \
+                not any(sk_eq(c, nc) and (oo[i], no[j], size(c)) in pset for j, nc in enumerate(n[1])):
+            fail_old = True
+    return fail_new, fail_old, nf, of
+
+
+def check_clauses(old, new, ans, script=None):
     """returns (list of failed clause names, survivors_failed: bool)"""
     bad = []
     if ans is not None and ans[0] == "ERR":
-        return ["plan-panic:" + str(ans[1])], False
+        return ["plan-panic:" + str(ans[1])], False, {}
     if sk_eq(old, new):
         if ans is not None:
             bad.append("identical-not-noop")
-        return bad, False
+        return bad, False, {}
     if ans is None:
-        return ["noop-for-different-layouts"], False
+        return ["noop-for-different-layouts"], False, {}
     total, ps, storage = ans
     so, sn = size(old), size(new)
     if total != sn:
@@ -270,7 +519,68 @@ def check_clauses(old, new, ans):
             surv = True
         elif embeds(old, new) and carried != so:
             surv = True
-    return bad, surv
+    # ---- mixed edits ----
+    mixed = {"count_checked": False, "count_fail": False, "identity_levels": 0, "identity_fail_unambiguous": False,
+             "identity_fail_ambiguous": False, "unambiguous_levels": 0}
+    if not bad and storage is not None and old[0] == 'C' and new[0] == 'C':
+        memo = {}
+        pos_ok = all_leaves_positive(old) and all_leaves_positive(new)
+        # count form (C08_survivors_mixed_count): at least as many cells are carried as survive ANY reading of the pair as a mixed edit
+        if pos_ok:
+            kstar = best_medit(old, new, memo)
+            covered = 0
+            for (p, off, sk) in nnodes_:
+                if sk[0] != 'C' and any(d <= off and off + size(sk) <= d + z for (s_, d, z) in ps):
+                    covered += 1
+            mixed["count_checked"] = True
+            mixed["kstar"] = kstar
+            if covered < kstar:
+                mixed["count_fail"] = True
+        # identity form (C08_survivors_mixed_unambiguous), at the root under the generator's script (or a canonical reading), and at every
+        # pair of different call nodes the plan pairs under a canonical reading (C08_plan_is_matching)
+        pset = set(ps)
+        if script is not None:
+            unt, chg = script_pairs(script)
+        else:
+            unt, chg = canonical_script(old[1], new[1])
+        levels = [(0, 0, old, new, unt, chg, script is not None)]
+        if pos_ok:
+            opath, npath = {}, {}
+            for (p, off, sk) in onodes:
+                opath.setdefault((off, size(sk)), []).append((p, sk))
+            for (p, off, sk) in nnodes_:
+                npath.setdefault((off, size(sk)), []).append((p, sk))
+            oat = {p: (off, sk) for (p, off, sk) in onodes}
+            nat = {p: (off, sk) for (p, off, sk) in nnodes_}
+            paired = set()
+            for (s_, d, z) in ps:
+                if z == 0:
+                    continue
+                for (po, a) in opath.get((s_, z), []):
+                    for (pn, b_) in npath.get((d, z), []):
+                        if len(po) == len(pn) and sk_eq(a, b_):
+                            for k_ in range(1, len(po)):
+                                paired.add((po[:k_], pn[:k_]))
+            for (po, pn) in sorted(paired):
+                (ob, osk), (nb, nsk) = oat[po], nat[pn]
+                if osk[0] == 'C' and nsk[0] == 'C' and not sk_eq(osk, nsk):
+                    u2, c2 = canonical_script(osk[1], nsk[1])
+                    levels.append((ob, nb, osk, nsk, u2, c2, False))
+        for (ob, nb, o, n, u_, c_, scripted) in levels:
+            fail_new, fail_old, nf, of = identity_fails(o, n, ob, nb, u_, c_, pset)
+            mixed["identity_levels"] += 1
+            if nf or of:
+                mixed["unambiguous_levels"] += 1
+            if scripted and len(u_) < len(o[1]) and len(u_) < len(n[1]) and \
+                    any(has_cells(o[1][i]) and size(o[1][i]) > 0 for i, _ in u_):
+                mixed["scripted_mixed_with_untouched"] = mixed.get("scripted_mixed_with_untouched", 0) + 1
+                if nf:
+                    mixed["scripted_mixed_unambiguous"] = mixed.get("scripted_mixed_unambiguous", 0) + 1
+            if (fail_new and nf) or (fail_old and of):
+                mixed["identity_fail_unambiguous"] = True
+            elif scripted and fail_new and mixed_edit_ambiguous(o[1], n[1], u_, c_):
+                mixed["identity_fail_ambiguous"] = True
+    return bad, surv, mixed
 
 
 def run(ck):
@@ -299,8 +609,8 @@ def run(ck):
     pairs = []
     if ck.replay:
         rp = json.load(open(ck.replay))["replay"]
-        if "old" in rp:
-            pairs.append((rp["old_py"], rp["new_py"])) if "old_py" in rp else None
+        if "old" in rp and "new" in rp:
+            pairs.append((parse_sk(rp["old"]), parse_sk(rp["new"])))
     corpus = os.path.join(VERIF, "corpus", "C08", "pairs.txt")
     corpus_lines = []
     if os.path.exists(corpus):
@@ -362,6 +672,36 @@ def run(ck):
             for _ in range(rng.range(1, 4)):
                 new = edit(rng, new)
             pairs.append((base, new))
+    # mixed edits: ONE edit removes some subtrees AND adds others (also nested), and rows of call sites with one site removed and another
+    # added elsewhere (the C07 "delins" shape).  The generator's script is kept: the identity clause is judged against it.  A third of
+    # the scripts are unambiguous by construction (added sites built from cells that occur nowhere else).
+    findings = {f["cls"]: f for f in known_findings("C08")}
+    mixed_on = "mixed-edit-ambiguous-partial-chain" in findings
+    scripts = {}
+    n_mixed = n_delins = 0
+    if mixed_on:
+        rng = ck.rng.fork("mixed")
+        for i in range(1500 if ck.tier == "quick" else 20000):
+            fresh = rng.chance(1, 3)
+            r = rng.below(3)
+            if r == 0:
+                base = rand_pos_skel(rng, 3)
+                if base[0] != 'C':
+                    base = ('C', [base, rand_site(rng)])
+                new, script = mixed_edit(rng, base, 0, fresh); n_mixed += 1
+            elif r == 1:
+                base = ('C', [rand_site(rng) if rng.chance(2, 3) else rand_pos_skel(rng, 2) for _ in range(rng.range(2, 5))])
+                new, script = mixed_edit(rng, base, 0, fresh); n_mixed += 1
+            else:
+                script = delins_script(rng, fresh); n_delins += 1
+                base, new = ('C', script_olds(script)), ('C', script_news(script))
+                if rng.chance(1, 4):      # the same row one call level deeper, between unrelated siblings
+                    pre = [rand_leaf(rng, True) for _ in range(rng.below(2))]
+                    post = [rand_leaf(rng, True) for _ in range(rng.below(2))]
+                    script = [('same', c) for c in pre] + [('edit', base, new)] + [('same', c) for c in post]
+                    base, new = ('C', pre + [base] + post), ('C', pre + [new] + post)
+            pairs.append((base, new))
+            scripts.setdefault(show(base) + " | " + show(new), script)
     lines = corpus_lines + [show(a) + " | " + show(b) for a, b in pairs]
     text = "\n".join(lines) + "\n"
 
@@ -383,11 +723,13 @@ def run(ck):
         o, n = l.split("|")
         return parse_sk(o.strip()), parse_sk(n.strip())
 
-    findings = {f["cls"]: f for f in known_findings("C08")}
     disagreements = []
     clause_fail = []
     surv_known = 0
     surv_checked = 0
+    mx = {"count_checked": 0, "count_checked_with_survivors": 0, "identity_levels": 0, "identity_levels_unambiguous": 0,
+          "identity_fail_on_ambiguous_script_F29": 0, "scripted_removed_and_added_with_untouched": 0,
+          "scripted_removed_and_added_with_untouched_unambiguous": 0}
     distinct = set()
     nontrivial = 0
     for idx, l in enumerate(lines):
@@ -396,7 +738,15 @@ def run(ck):
         if model_ok and rc_m == 0 and idx < len(out_m):
             if out_m[idx] != out_i[idx]:
                 disagreements.append((l, out_m[idx], out_i[idx]))
-        bad, surv = check_clauses(old, new, ai)
+        bad, surv, mixed = check_clauses(old, new, ai, scripts.get(l))
+        if mixed.get("count_checked"):
+            mx["count_checked"] += 1
+            if mixed.get("kstar", 0) > 0:
+                mx["count_checked_with_survivors"] += 1
+        mx["identity_levels"] += mixed.get("identity_levels", 0)
+        mx["identity_levels_unambiguous"] += mixed.get("unambiguous_levels", 0)
+        mx["scripted_removed_and_added_with_untouched"] += mixed.get("scripted_mixed_with_untouched", 0)
+        mx["scripted_removed_and_added_with_untouched_unambiguous"] += mixed.get("scripted_mixed_unambiguous", 0)
         if l not in distinct:
             distinct.add(l)
             if ai is not None and ai[0] != "ERR" and len(ai[1]) > 0:
@@ -411,6 +761,14 @@ def run(ck):
                 ck.known(findings["partial-sibling-match"], f"{l} -> {out_i[idx]}")
             else:
                 clause_fail.append((l, ["survivors"], out_i[idx]))
+        elif mixed.get("count_fail"):
+            clause_fail.append((l, ["survivors-mixed-count: fewer cells carried than survive the best reading as a mixed edit (%d)" % mixed["kstar"]], out_i[idx]))
+        elif mixed.get("identity_fail_unambiguous"):
+            clause_fail.append((l, ["survivors-mixed-identity: an untouched child of an UNAMBIGUOUS mixed edit is not copied whole"], out_i[idx]))
+        elif mixed.get("identity_fail_ambiguous"):
+            # the generator's script is ambiguous (an added/changed site shares a cell with an old site other than its counterpart)
+            mx["identity_fail_on_ambiguous_script_F29"] += 1
+            ck.known(findings["mixed-edit-ambiguous-partial-chain"], f"{l} -> {out_i[idx]}")
     ck.coverage["evaluations"] = len(lines)
     ck.coverage["distinct_nontrivial"] = nontrivial
     ck.coverage["exhaustive_pairs"] = n_exh
@@ -420,6 +778,10 @@ def run(ck):
     ck.coverage["deletion_pairs"] = n_del
     ck.coverage["insertion_pairs"] = n_ins
     ck.coverage["survivor_clause_checked_on"] = surv_checked
+    ck.coverage["mixed_edit_pairs"] = n_mixed
+    ck.coverage["delete_and_insert_site_pairs"] = n_delins
+    ck.coverage["mixed_streams"] = "on" if mixed_on else "off (finding class mixed-edit-ambiguous-partial-chain not registered in KNOWN_FINDINGS.txt)"
+    ck.coverage["mixed"] = mx
     ck.coverage["survivor_failures_in_known_class_F1"] = surv_known
     ck.coverage["corpus_cases"] = len(corpus_lines)
     ck.coverage["model_vs_impl_disagreements"] = len(disagreements)
@@ -483,4 +845,5 @@ def finish(ck):
                       "harness/st/src/bin/st_diff.rs and the python-side clause oracle in checks/C08.py",
                       "usize/u64 overflow of addresses (layouts >= 2^64 words) is outside the model"],
         rule=("exhaustive ordered pairs of layouts up to the stated node bound, then random pairs derived by edit scripts "
-              "(delete/insert/replace/nest/resize) and pure-deletion / pure-insertion pairs; a case is non-trivial when the plan is Some and has >= 1 patch; distinct = distinct input lines"))
+              "(delete/insert/replace/nest/resize), pure-deletion / pure-insertion pairs, mixed edits (subtrees removed AND added in one edit, also nested; "
+              "a third unambiguous by construction) and rows of call sites with one site removed and another added elsewhere; a case is non-trivial when the plan is Some and has >= 1 patch; distinct = distinct input lines"))
